@@ -263,7 +263,7 @@ class DewPoint:
         elif gas_conversion is None:
             f = self._T_error
             z_norm = z/z.sum()
-            zP = z * P
+            zP = z_norm * P
             T_guess, x = self._Tx_ideal(zP) 
             args = (P, z_norm, zP, x)
             try:
@@ -285,7 +285,7 @@ class DewPoint:
             z_norm = z / z.sum()
             x = z_norm.copy()
             dz = z_norm.copy()
-            zP = z * P
+            zP = z_norm * P
             T_guess, y = self._Tx_ideal(zP)
             args = (P, z_norm, dz, y, x, gas_conversion)
             try:
@@ -341,7 +341,7 @@ class DewPoint:
         elif gas_conversion is None:
             z_norm = z / z.sum()
             Psats = np.array([i(T) for i in self.Psats], dtype=float)
-            z_over_Psats = z / Psats
+            z_over_Psats = z_norm / Psats
             P_guess, x = self._Px_ideal(z_over_Psats)
             args = (T, z_norm, z_over_Psats, Psats, x)
             f = self._P_error
@@ -363,7 +363,7 @@ class DewPoint:
             y = z_norm.copy()
             dz = z_norm.copy()
             Psats = np.array([i(T) for i in self.Psats], dtype=float)
-            z_over_Psats = z / Psats
+            z_over_Psats = z_norm / Psats
             P_guess, x = self._Px_ideal(z_over_Psats)
             args = (T, Psats, z_norm, dz, y, x, gas_conversion)
             try:
